@@ -19,7 +19,7 @@ def vrun(profile, quick, thorough, **kw):
 PROPS = {
     "C01": {
         "workloads": [vrun("c01", 4000, 80000), vrun("general", 1500, 30000)],
-        "rule": "each real run's raw event stream is replayed into every stats pipeline (Summarize<Normalize<Basic>>, the same under FailOnSkipped, under Repeat::failed / Repeat::skipped, Normalize<Libtest> incl. its suite line, Tee, Or with constant predicate); non-trivial = the run contains a failed/skipped step, a failed hook or a parser error; distinct by (pipeline, per-attempt outcome shape [step failed, hook failed, skipped, retries left])",
+        "rule": "each real run's raw event stream is replayed into every stats pipeline (Summarize<Normalize<Basic>>, the same under FailOnSkipped, under Repeat::failed / Repeat::skipped, Normalize<Libtest> incl. its suite line, Tee, Or with constant predicate); non-trivial = the run contains a failed/skipped step, a failed hook or a parser error; distinct by the run's per-attempt outcome shape [step failed, hook failed, skipped, retries left] (every run is judged by all 12 pipeline verdicts; see observed.c01.pipeline_verdicts)",
         "floor": {"quick": 200, "thorough": 1000},
         "assumptions": VRUN_ASSUME + ["the verdict oracle is written from the statement over the raw stream; the legacy rule (any Hook::Failed) is computed only to classify a mismatch as the recorded finding"],
     },
@@ -63,7 +63,7 @@ PROPS = {
         "workloads": [vrun("c08", 4000, 80000), vrun("general", 1500, 30000)],
         "rule": "non-trivial fail-fast run: a final failure while >=1 other attempt is in flight, or a retried failure that must not trip it, or a parser error with items after it; distinct by (in flight at trip, limit, started after trip) x schedule hash",
         "floor": {"quick": 50, "thorough": 300},
-        "assumptions": VRUN_ASSUME + ["the differential clause (fail-fast on vs off, nothing failing) is covered by the set/grammar oracles running on fail-fast cases without failures"],
+        "assumptions": VRUN_ASSUME + ["differential clause: every fail-fast case without a final failure, a parser error or a real-time delay is executed a second time with fail-fast off under the same seeds; the two event streams must be equal event by event"],
     },
     "C09": {
         "workloads": [vrun("c09", 4000, 80000), vrun("general", 1500, 30000)],
@@ -211,6 +211,13 @@ PROPS["C14"] = {
         "the CDATA terminator ']]>' is planted only in every 10th synthetic case",
     ],
 }
+
+VT_EXTRA = {"bin": "vt", "engine": "vt", "profile": "c20", "cases": {"quick": 320, "thorough": 6000},
+            "timeout_s": {"quick": 600, "thorough": 3000}, "sample_keys": []}
+for _p in ("C02", "C03", "C05", "C06", "C09", "C10"):
+    PROPS[_p]["workloads"] = PROPS[_p]["workloads"] + [dict(VT_EXTRA)]
+    PROPS[_p]["builds"] = [("vh", ()), ("vt", ())]
+    PROPS[_p]["assumptions"] = PROPS[_p]["assumptions"] + ["a third workload runs the same oracle on real runs through the Cucumber facade with the `tracing` feature compiled in and a collector installed (the runner's span / span-close-wait code paths), one run per process"]
 
 MIRI_RUN = {"engine": "vrun", "profile": "tiny", "procs": 16, "cases_per_proc": 10, "timeout_s": 2400}
 for _p, _why in (("C05", "retry-delay helper thread + oneshot wake-up under Miri's data-race detector"),
